@@ -227,6 +227,7 @@ def gen_scenario(seed, cfg):
           'out_encoding': sim.weighted('outenc', [(5, ['utf-8', 'strict']), (1.5, ['ascii', 'strict']), (1, ['latin-1', 'strict']),
                                                    (1, ['cp1252', 'strict']), (1.5, ['utf-8', 'surrogateescape'])]),
           'stdout_tty': sim.coin('tty', 0.15),
+          'argv_style': sim.weighted('argvstyle', [(5, 'short'), (1.5, 'long'), (1, 'eq'), (1, 'attached'), (1.5, 'after'), (1, 'dashdash')]),
           'locale_encoding': sim.weighted('locale', [(6, 'utf-8'), (1.5, 'ascii'), (1, 'latin-1'), (1, 'cp1252')]),
           'sweep_seed': sim.subseed('sweep'), 'digest_gen': sim.digest()}
     return sc
@@ -324,23 +325,32 @@ def run_once(sc, faults):
         _ROOT_RE = re.compile(re.escape(os.path.join(tempfile.gettempdir(), 'hplsim_c19_')) + r'[A-Za-z0-9_]*')
     o = RunOutcome()
     try:
-        argv = []
+        # the same command line in the spellings argparse accepts: short / long options, `=` and
+        # attached values, options after the positional argument, `--` before it
+        style = sc.get('argv_style', 'short')
+        opts = []
         if sc['mode'] == 'inline':
-            argv.append('-p')
+            opts.append('--property' if style in ('long', 'eq') else '-p')
         if sc['json']:
-            argv += ['-o', 'json']
+            opts += {'long': ['--output', 'json'], 'eq': ['--output=json'], 'attached': ['-ojson']}.get(style, ['-o', 'json'])
         cwd = None
         if sc['mode'] == 'inline':
-            argv.append(sc['text'])
+            positional = sc['text']
             arg_path = None
         else:
             arg_path = setup_files(sc, root)
             if sc['path_kind'] == 'relative':
                 cwd = os.getcwd()
                 os.chdir(root)
-                argv.append('spec.hpl')
+                positional = 'spec.hpl'
             else:
-                argv.append(arg_path)
+                positional = arg_path
+        if style == 'after':
+            argv = [positional] + opts
+        elif style == 'dashdash':
+            argv = opts + ['--', positional]
+        else:
+            argv = opts + [positional]
         # the file the operating system designates for the argument (symbolic links followed first,
         # `..` applied to where they lead): identity, not spelling
         designated = None
@@ -650,6 +660,7 @@ def execute(sc, cfg, stats=None, only_plan=None, trace=None):
     count('path_' + sc['path_kind'])
     count('locale_' + str(sc.get('locale_encoding')))
     count('stdout_' + ('terminal' if sc.get('stdout_tty') else 'file_or_pipe'))
+    count('argv_' + sc.get('argv_style', 'short'))
     count('mode_%s_%s' % (sc['mode'], 'json' if sc['json'] else 'plain'))
     v = judge(sc, base)
     if v:
@@ -996,6 +1007,7 @@ def main(argv):
         'handlers_reached': {k[8:]: v for k, v in sorted(stats.items()) if k.startswith('handler_')},
         'content_kinds': {k[8:]: v for k, v in sorted(stats.items()) if k.startswith('content_')},
         'path_kinds': {k[5:]: v for k, v in sorted(stats.items()) if k.startswith('path_')},
+        'invocations_by_argv_spelling': {k[5:]: v for k, v in sorted(stats.items()) if k.startswith('argv_')},
         'invocations_by_stdout_kind': {k[7:]: v for k, v in sorted(stats.items()) if k.startswith('stdout_')},
         'invocations_by_locale_encoding': {k[7:]: v for k, v in sorted(stats.items()) if k.startswith('locale_')},
         'argv_shapes': {k[5:]: v for k, v in sorted(stats.items()) if k.startswith('mode_')},
